@@ -13,10 +13,11 @@ open Pyab Pyab.Spec Pyab.Proofs Pyab.Proofs.Run
 
 deriving instance DecidableEq for Except
 
-/-- the published scheme: numerator (over 2^32) of the hash position of a unit -/
-def published (salt : Option String) (splitters : List String) (env : Env) : Except Err Nat := do
+/-- the published scheme: numerator (over 2^32) of the hash position of a unit (`printable`:
+    the table `repr()` of a string inside a tuple value consults, `GenCfg.printable`) -/
+def published (printable : Nat → Bool) (salt : Option String) (splitters : List String) (env : Env) : Except Err Nat := do
   let vals ← (sortDedup splitters).mapM (fun n => match env.get n with
-    | some v => PyVal.pyStr v
+    | some v => PyVal.pyStr printable v
     | none => throw .nameError)
   pure (MD5.pos32 ((salt.getD "") ++ String.join vals))
 
@@ -29,8 +30,8 @@ def chooseAt (h : Nat) (pop : List PyVal) (ws : List Num) : Except Err Outcome :
       | none => throw .indexError
   | .random _ => throw (.other "unreachable")
 
-theorem published_eq_keyOf (salt : Option String) (xs : List String) (env : Env) :
-    published salt xs env = MD5.pos32 <$> keyOf (salt.getD "") (sortDedup xs) env := by
+theorem published_eq_keyOf (pr : Nat → Bool) (salt : Option String) (xs : List String) (env : Env) :
+    published pr salt xs env = MD5.pos32 <$> keyOf pr (salt.getD "") (sortDedup xs) env := by
   unfold published keyOf
   simp only [map_bind, map_pure]
   rfl
@@ -38,7 +39,7 @@ theorem published_eq_keyOf (salt : Option String) (xs : List String) (env : Env)
 /-- **The compiled position is the published position.**  With the UTF-8 key encoding, for
     an experiment with splitters `xs`, whenever routing selects a return statement with
     population `pop` and weights `ws`, the generated function returns exactly the group that
-    `deterministic_choice` picks at the position `published e.salt xs env`: MD5 of the UTF-8
+    `deterministic_choice` picks at the position `published cfg.printable e.salt xs env`: MD5 of the UTF-8
     bytes of salt ++ str(values in sorted field-name order), first 32 bits. -/
 theorem C12_compiled_position_eq_published (cfg : RunCfg) (hc : CanonicalExpr cfg.toGenCfg)
     (hs : cfg.strReprSalt = true) (hu : cfg.keyUtf8 = true)
@@ -48,7 +49,7 @@ theorem C12_compiled_position_eq_published (cfg : RunCfg) (hc : CanonicalExpr cf
     (hroute : specRoute env e.cond = .ok (some gs)) (hret : retVals cfg.toGenCfg gs = .ok (pop, ws))
     (xs : List String) (hxs : e.splitters = some xs) (hne : xs ≠ []) :
     runGenerated cfg e env = (do
-      let h ← published e.salt xs env
+      let h ← published cfg.printable e.salt xs env
       chooseAt h pop ws) := by
   rw [C09_factorisation cfg hc hs e env L hL, specRun_eq]
   have h1 : (e.params cfg.toGenCfg).all (fun p => (env.get p).isSome) = true := List.all_eq_true.2 hp
@@ -62,7 +63,7 @@ theorem C12_compiled_position_eq_published (cfg : RunCfg) (hc : CanonicalExpr cf
   | nil => exact absurd hsd (sortDedup_ne_nil hne)
   | cons y ys =>
       simp only []
-      cases keyOf (e.salt.getD "") (y :: ys) env with
+      cases keyOf cfg.printable (e.salt.getD "") (y :: ys) env with
       | error err => rfl
       | ok key =>
           simp only [bind, Except.bind, Functor.map, Except.map, chooseByKey, chooseAt, hu,
@@ -78,7 +79,7 @@ theorem C12_compiled_position_eq_published (cfg : RunCfg) (hc : CanonicalExpr cf
 
 /-- the example experiment of C09 on the unit `uid = "u1"`, `country = 1` -/
 example : runGenerated Generated.runCfg exC09 [("uid", .str "u1"), ("country", .int 1)] = (do
-      let h ← published (some "s") ["uid"] [("uid", .str "u1"), ("country", .int 1)]
+      let h ← published Generated.runCfg.printable (some "s") ["uid"] [("uid", .str "u1"), ("country", .int 1)]
       chooseAt h [.int 10, .int 20] [.i 1, .i 1]) :=
   C12_compiled_position_eq_published Generated.runCfg C02_generator_canonical rfl rfl exC09 _ _ rfl
     (by decide) _ _ _ rfl rfl ["uid"] rfl (by decide)
@@ -87,10 +88,10 @@ example : runGenerated Generated.runCfg exC09 [("uid", .str "u1"), ("country", .
 theorem C12_position_lt (s : String) : MD5.pos32 s < 2 ^ 32 := MD5.pos32_lt s
 
 /-- … and so does every published position -/
-theorem C12_published_lt (salt : Option String) (xs : List String) (env : Env) (h : Nat)
-    (hp : published salt xs env = .ok h) : h < 2 ^ 32 := by
+theorem C12_published_lt (pr : Nat → Bool) (salt : Option String) (xs : List String) (env : Env) (h : Nat)
+    (hp : published pr salt xs env = .ok h) : h < 2 ^ 32 := by
   rw [published_eq_keyOf] at hp
-  cases hk : keyOf (salt.getD "") (sortDedup xs) env with
+  cases hk : keyOf pr (salt.getD "") (sortDedup xs) env with
   | error err => rw [hk] at hp; cases hp
   | ok key =>
       rw [hk] at hp
@@ -98,12 +99,12 @@ theorem C12_published_lt (salt : Option String) (xs : List String) (env : Env) (
       exact MD5.pos32_lt key
 
 example : (442407719 : Nat) < 2 ^ 32 :=
-  C12_published_lt (some "jos") ["x"] [("x", .str "é")] _ (by decide +kernel)
+  C12_published_lt Generated.isPrintable (some "jos") ["x"] [("x", .str "é")] _ (by decide +kernel)
 
 /-- the order of the splitter declaration is irrelevant; only the field names' alphabetical
     order matters -/
-example : published (some "s") ["b", "a"] [("a", .str "1"), ("b", .str "2")]
-    = published (some "s") ["a", "b"] [("b", .str "2"), ("a", .str "1")] := by decide +kernel
+example : published Generated.isPrintable (some "s") ["b", "a"] [("a", .str "1"), ("b", .str "2")]
+    = published Generated.isPrintable (some "s") ["a", "b"] [("b", .str "2"), ("a", .str "1")] := by decide +kernel
 
 /-! ### known answers: RFC 1321 test suite, and a non-ASCII key -/
 
@@ -120,7 +121,7 @@ example : MD5.hexdigest
     = "d174ab98d277d9f5a5611c2c9f419d9f" := by decide +kernel
 /-- `int(hashlib.md5("josé".encode("utf-8")).hexdigest()[:8], 16)` -/
 example : MD5.pos32 "josé" = 442407719 := by decide +kernel
-example : published (some "jos") ["x"] [("x", .str "é")] = .ok 442407719 := by decide +kernel
+example : published Generated.isPrintable (some "jos") ["x"] [("x", .str "é")] = .ok 442407719 := by decide +kernel
 
 
 /-- **table obligation**: the key is hashed as UTF-8 and the salt is rendered with `repr()` -/
